@@ -780,6 +780,6 @@ func init() {
 		Run:            c09Run,
 		Replay:         c09Replay,
 		QuickBudget:    150 * time.Second,
-		ThoroughBudget: 15 * time.Minute,
+		ThoroughBudget: 8 * time.Minute,
 	})
 }
